@@ -1,0 +1,77 @@
+//! Verification hook (compiled only with `--cfg grafeo_verif`): cooperative yield points.
+//!
+//! A thread that registered with the controller stops at every [`yield_point`] and runs on only
+//! when the controller grants it the next step, so exactly one registered thread runs between two
+//! yield points and the interleaving of critical sections is chosen (and recorded) by the test
+//! harness. Yield points are placed *between* critical sections: a parked thread never holds a
+//! lock. Threads that never registered are not affected (one thread-local read per yield point).
+
+use parking_lot::{Condvar, Mutex};
+use std::cell::Cell;
+use std::collections::{BTreeMap, BTreeSet};
+
+thread_local! { static TID: Cell<Option<usize>> = const { Cell::new(None) }; }
+
+#[derive(Default)]
+struct St {
+    parked: BTreeMap<usize, &'static str>,
+    finished: BTreeSet<usize>,
+    granted: Option<usize>,
+}
+
+static STATE: Mutex<St> = Mutex::new(St { parked: BTreeMap::new(), finished: BTreeSet::new(), granted: None });
+static CV: Condvar = Condvar::new();
+
+/// Clears the controller state (call before starting a new controlled run).
+pub fn reset() {
+    let mut g = STATE.lock();
+    g.parked.clear();
+    g.finished.clear();
+    g.granted = None;
+}
+
+/// Registers the calling thread under `tid`; from now on it stops at yield points.
+pub fn register(tid: usize) {
+    TID.with(|t| t.set(Some(tid)));
+}
+
+/// Marks the calling thread as finished and unregisters it.
+pub fn finish() {
+    if let Some(tid) = TID.with(|t| t.replace(None)) {
+        let mut g = STATE.lock();
+        g.finished.insert(tid);
+        CV.notify_all();
+    }
+}
+
+/// Ends the current step of a registered thread and blocks until the controller grants the next.
+#[inline]
+pub fn yield_point(label: &'static str) {
+    let Some(tid) = TID.with(|t| t.get()) else { return };
+    let mut g = STATE.lock();
+    g.parked.insert(tid, label);
+    CV.notify_all();
+    while g.granted != Some(tid) {
+        CV.wait(&mut g);
+    }
+    g.granted = None;
+    g.parked.remove(&tid);
+}
+
+/// Controller: waits until each of the `n` registered threads is parked or finished and
+/// returns the parked ones with the label they stopped at.
+pub fn wait_quiescent(n: usize) -> Vec<(usize, &'static str)> {
+    let mut g = STATE.lock();
+    while g.granted.is_some() || g.parked.len() + g.finished.len() < n {
+        CV.wait(&mut g);
+    }
+    g.parked.iter().map(|(k, v)| (*k, *v)).collect()
+}
+
+/// Controller: lets thread `tid` run its next step (it must be parked).
+pub fn grant(tid: usize) {
+    let mut g = STATE.lock();
+    assert!(g.parked.contains_key(&tid), "grant: thread {tid} is not parked");
+    g.granted = Some(tid);
+    CV.notify_all();
+}
